@@ -10,6 +10,8 @@ for d in sorted(glob.glob(os.path.join(V, 'seeded', 'C*-*')), key=lambda p: (p.s
     c = m.get('checks', {}).get(chk, {})
     sig = c.get('signature', '').replace('signature: ', '')
     caught = f'`{sig}`' if c.get('exit') == 1 else 'MISSED'
+    if m.get('obsolete'):
+        caught = 'n/a - neutralised by a later repair of the library (see meta.json)'
     if chk != m['property']:
         caught += f' (by {chk})'
     fr = m.get('first_run', '')
